@@ -183,3 +183,52 @@ def seed_for(flags: list[str], prefix: str = "f") -> SeedCache:
 
     h = hashlib.sha1("\0".join(flags).encode()).hexdigest()[:12]
     return SeedCache("%s-%s" % (prefix, h), list(flags))
+
+
+def build_fixture_mode(root: str, flags: list[str], cache_dir: str, targets: list[str]) -> tuple[int, list[str], str]:
+    """Run a build the way the repository's own check tests do: options from the flag list, the
+    lightweight lib-stub builtins instead of the full typeshed (a cold build costs ~0.1 s).
+    Fixture files (builtins.pyi, typing.pyi ...) must already be in `root`.
+    Returns (status like main(): 0/1/2, message lines, stderr text)."""
+    import mypy.build
+    from mypy.errors import CompileError
+    from mypy.main import process_options
+
+    real_out, real_err = io.StringIO(), io.StringIO()
+    old = os.getcwd()
+    os.chdir(root)
+    try:
+        with contextlib.redirect_stdout(real_out), contextlib.redirect_stderr(real_err):
+            try:
+                sources, options = process_options(list(flags) + ["--cache-dir", cache_dir] + targets, stdout=real_out, stderr=real_err)
+            except SystemExit as e:
+                return -2, [], "process_options exit %s: %s" % (e.code, real_err.getvalue()[-400:])
+            options.use_builtins_fixtures = True
+            options.show_traceback = True
+            try:
+                res = mypy.build.build(sources=sources, options=options, alt_lib_path=root)
+                msgs = res.errors
+                blocker = False
+            except CompileError as e:
+                msgs = e.messages
+                blocker = True
+            except SystemExit as e:
+                return 2, [], "SystemExit %s\n%s" % (e.code, real_err.getvalue()[-3000:] + real_out.getvalue()[-1000:])
+            except BaseException:
+                import traceback
+
+                return -1, [], "ESCAPED-EXCEPTION\n" + traceback.format_exc()
+    finally:
+        os.chdir(old)
+        gc.collect()
+    n_err = sum(1 for m in msgs if ": error:" in m)
+    status = 2 if blocker else (1 if n_err else 0)
+    return status, list(msgs), real_err.getvalue()[-2000:]
+
+
+def install_fixtures(root: str, fixtures: dict) -> None:
+    base = os.path.join(REPO, "test-data", "unit")
+    for target, rel in fixtures.items():
+        src = os.path.join(base, rel)
+        if os.path.exists(src):
+            shutil.copyfile(src, os.path.join(root, target))
